@@ -5,4 +5,5 @@ import "verif/harness/internal/malx"
 func init() {
 	register("malformed-run", malx.Run)
 	register("malformed-child", malx.Child)
+	register("malformed-world", malx.World)
 }
